@@ -18,7 +18,10 @@ REGISTRY = {
     "C06": ("checks.calls_checks", "c06"),
     "C07": ("checks.calls_checks", "c07"),
     "C08": ("checks.calls_checks", "c08"),
+    "C15": ("checks.gaussian_checks", "c15"),
     "C16": ("checks.featurizer_checks", "c16"),
+    "C18": ("checks.controla_checks", "c18"),
+    "C20": ("checks.controla_checks", "c20"),
     "C04": ("checks.arith_checks", "c04"),
     "C05": ("checks.arith_checks", "c05"),
     "C14": ("checks.arith_checks", "c14"),
